@@ -374,7 +374,7 @@ def struct_cases(ctx, doc, oracle, only=None):
             # a class without version guards behaves identically under every version: full budget for one
             # representative of each group of versions with the same active items, a reduced one for the others
             rep = any(g[0] == v for g in groups)
-            vectors, k = gen.count_vectors(cname, v, budget_valid if rep else max(3, budget_valid // 3),
+            vectors, k = gen.count_vectors(cname, v, budget_valid if rep else (2 if quick else 8),
                                            exhaustive_limit=8)
             stats['free_items_max'] = max(stats['free_items_max'], k)
             others = [x for x in supported if x != v]
@@ -416,6 +416,8 @@ def struct_cases(ctx, doc, oracle, only=None):
             seen = set()
             for val in srcs:
                 good, muts = sg.mutations(tag, val, rng, schema, v, gen)
+                if not rep and quick and len(muts) > 12:
+                    muts = rng.sample(muts, 12)
                 for label, bs in muts:
                     if bs in seen or bs == good:
                         continue
@@ -802,6 +804,8 @@ def constructed_objects(ctx, oracle):
     out.append(('GetResponsePayload', lambda: payloads.GetResponsePayload(enums.ObjectType.SECRET_DATA, 'abcdefgh', secrets.SecretData(
         secrets.SecretData.SecretDataType(enums.SecretDataType.SEED), key_block(b'x', enums.KeyFormatType.OPAQUE, None, None))), ALL, 'GetResponsePayload(SECRET_DATA)'))
     out.append(('GetResponsePayload', lambda: payloads.GetResponsePayload(enums.ObjectType.CERTIFICATE, '2', secrets.Certificate(enums.CertificateType.X_509, b'\x30')), ALL, 'GetResponsePayload(CERTIFICATE)'))
+    out.append(('GetResponsePayload', lambda: payloads.GetResponsePayload(enums.ObjectType.CERTIFICATE, '', secrets.Certificate(enums.CertificateType.X_509, b'\x30')), [10, 20],
+                'GetResponsePayload(CERTIFICATE, unique_identifier="", Certificate)', True))
     for k in range(4):
         out.append(('CreateRequestPayload', (lambda k=k: payloads.CreateRequestPayload(enums.ObjectType.SYMMETRIC_KEY, ta(k))), ALL, 'CreateRequestPayload(SYMMETRIC_KEY, template #%d)' % k))
     out.append(('CreateResponsePayload', lambda: payloads.CreateResponsePayload(enums.ObjectType.SYMMETRIC_KEY, '1', ta(1)), V1, 'CreateResponsePayload(with template attribute)'))
@@ -813,6 +817,10 @@ def constructed_objects(ctx, oracle):
         common_template_attribute=objects.TemplateAttribute(attributes=mk_attrs(1), tag=enums.Tags.COMMON_TEMPLATE_ATTRIBUTE),
         private_key_template_attribute=objects.TemplateAttribute(attributes=mk_attrs(2), tag=enums.Tags.PRIVATE_KEY_TEMPLATE_ATTRIBUTE),
         public_key_template_attribute=objects.TemplateAttribute(attributes=mk_attrs(3), tag=enums.Tags.PUBLIC_KEY_TEMPLATE_ATTRIBUTE)), ALL, 'CreateKeyPairRequestPayload(3 templates)'))
+    out.append(('CreateKeyPairResponsePayload', lambda: payloads.CreateKeyPairResponsePayload(
+        '1', '2', objects.TemplateAttribute(attributes=mk_attrs(1), tag=enums.Tags.PRIVATE_KEY_TEMPLATE_ATTRIBUTE),
+        objects.TemplateAttribute(attributes=[], tag=enums.Tags.PUBLIC_KEY_TEMPLATE_ATTRIBUTE)), V1, 'CreateKeyPairResponsePayload("1", "2", private + public key template attributes)'))
+    out.append(('CreateKeyPairResponsePayload', lambda: payloads.CreateKeyPairResponsePayload('', ''), ALL, 'CreateKeyPairResponsePayload("", "")'))
     out.append(('LocateRequestPayload', lambda: payloads.LocateRequestPayload(maximum_items=0, offset_items=0, storage_status_mask=0, attributes=mk_attrs(2)), ALL, 'LocateRequestPayload(max 0, offset 0, mask 0, attributes)'))
     out.append(('LocateRequestPayload', lambda: payloads.LocateRequestPayload(), ALL, 'LocateRequestPayload()'))
     out.append(('GetAttributesRequestPayload', lambda: payloads.GetAttributesRequestPayload('1', ['Name', 'Object Group', 'x-Purpose']), V1, 'GetAttributesRequestPayload(names incl. custom)'))
@@ -851,7 +859,9 @@ def constructed_objects(ctx, oracle):
             [v], 'ResponseMessage(Destroy success + failure with empty message) under version %d' % v))
 
     n_built = 0
-    for name, thunk, versions, how in out:
+    for entry in out:
+        name, thunk, versions, how = entry[:4]
+        must = len(entry) > 4 and entry[4]
         try:
             x = thunk()
         except Exception as e:
@@ -867,9 +877,9 @@ def constructed_objects(ctx, oracle):
                 x = thunk()      # a fresh object per version: a purity failure must not contaminate the next check
             except Exception:
                 break
-            oracle.constructed(name, x, v, other_versions=ov, how=how)
+            oracle.constructed(name, x, v, must_encode=must, other_versions=ov, how=how)
     ctx.cov['constructed_objects'] = {'builders': len(out), 'built': n_built,
-                                      'classes': sorted({n for n, _, _, _ in out})}
+                                      'classes': sorted({e[0] for e in out})}
 
 
 # ------------------------------------------------------------------ run
